@@ -57,6 +57,14 @@ __author__ = "Richard Gast, Daniel Rose"
 __status__ = "Development"
 
 
+def _squeeze_units(a: np.ndarray) -> np.ndarray:
+    """Drops singleton unit axes of a recorded time series but keeps its time axis (also for a single stored sample)."""
+    a = np.asarray(a)
+    if a.ndim < 2:
+        return a
+    return a.reshape((a.shape[0],) + tuple(n for n in a.shape[1:] if n != 1))
+
+
 class CircuitTemplate(AbstractBaseTemplate):
     """Base class for hierarchical networks, composed of either nodes or other circuits, connected by edges.
 
@@ -492,14 +500,14 @@ class CircuitTemplate(AbstractBaseTemplate):
         for key, out_info in output_map.items():
             if type(out_info) is dict:
                 # no `pop`: the same variable may be requested under several keys
-                outputs_final[key] = {key2: np.squeeze(outputs[key2][:, idx]) for key2, idx in out_info.items()}
+                outputs_final[key] = {key2: _squeeze_units(outputs[key2][:, idx]) for key2, idx in out_info.items()}
             else:
                 raw = outputs[key][:, out_info]
                 if hasattr(out_info, '__len__') and len(out_info) > 1:
                     # population output: keep (n_time, n_units) — do not squeeze unit axis
                     outputs_final[key] = raw
                 else:
-                    outputs_final[key] = np.squeeze(raw)
+                    outputs_final[key] = _squeeze_units(raw)
         time_vec = outputs.pop('time')
 
         # interpolate data if necessary
